@@ -7,6 +7,10 @@ ENGINES={
  "lexmc":("harness/src/lexmc.rs","exhaustive prefix-tree exploration of all strings up to a length bound through the real lexer"),
 }
 CHECKS={
+ "C03":dict(engine="progmc",category="exploration",
+   text="Complete enumeration of match expressions: 23 subject values x every single arm over 47 patterns (literals, ids, wildcards, nested tuple patterns with leading/trailing ellipsis, map patterns with as, typed patterns, patterns that rebind the subject variable) x else/no else x 4 result uses; guards incl. failing guards on the last arm; all two-arm lists over a 16-pattern core; or-alternatives x guards with side effects; multi-subject rows; plus multi-assignment over 5 target kinds x 17 right-hand sides and for-argument lists x 10 sequences. Each arm prints its index and bindings. Differential against the reference interpreter.",
+   note="Trusted: kref and the renderer; bounded sizes. Constructs the guide leaves open (named ellipsis over maps/strings/ranges, `()` pattern, parenthesised for arguments) are not generated or not compared.",
+   technique="bounded-exhaustive program enumeration + differential against a reference model (every case replayed on the implementation)"),
  "C02":dict(engine="progmc",category="exploration",
    text="Complete enumeration of function-binding programs (every signature of 0-2 required, 0-2 optional, variadic, captured and method arguments x every argument count 0..n+2 x six call spellings incl. paren-free, piped and packed; generator functions with the same signatures; structured/unpacking arguments x 14 argument shapes), of all statement sequences up to length 3 (thorough 4) over a 14-statement closure/capture alphabet both at top level and inside a function, and of generator bodies x consumers (next, for+break, to_tuple, interleaved instances) with printing that makes laziness observable. Differential against the reference interpreter.",
    note="Trusted: kref and the renderer; bounded sizes. Scoping is only generated where static (compile-order) and dynamic capture coincide.",
